@@ -27,6 +27,19 @@ macro_rules! main_family {
             }
         }
 
+        /// the handle turned into a plain closure (`TypedFunc::into_func`), which must keep the
+        /// compiled code alive on its own
+        pub fn main_closure(f: MainFn) -> Box<dyn Fn(u64, u64) -> V> {
+            match f {
+                $(
+                    MainFn::$v0(f) => { let g = f.into_func(); Box::new(move |_a: u64, _b: u64| ($to_v)(g())) }
+                    MainFn::$v2(f) => { let g = f.into_func(); Box::new(move |a: u64, b: u64| ($to_v)(g(($from_w)(a), ($from_w)(b)))) }
+                )*
+                MainFn::Unit0(f) => { let g = f.into_func(); Box::new(move |_a: u64, _b: u64| { g(); V::Unit }) }
+                MainFn::Str0(f) => { let g = f.into_func(); Box::new(move |_a: u64, _b: u64| V::Str(g().to_string())) }
+            }
+        }
+
         /// call main; argument words are decoded like inputs
         pub fn call_main(f: &MainFn, a: u64, b: u64) -> V {
             match f {
